@@ -3,11 +3,17 @@
 //@ attach: crates/air-lib/trace-handler/src/state_automata/fold_fsm.rs
 //@ functions: FoldFSM::from_fold_start; FoldFSM::meet_iteration_start; FoldFSM::meet_iteration_end; FoldFSM::meet_back_iterator; FoldFSM::meet_generation_end; FoldFSM::meet_fold_end; SubTraceLoreCtor::{from_before_start,before_end,maybe_before_end,after_start,after_end,finish,into_subtrace_lore}; PositionsTracker::len; SubTraceLoreCtorQueue::{add_element,current,traverse_back,finish,transform_to_lore}; fold_fsm::state_handler::CtxStateHandler::{prepare,set_final_states}; compute_new_state; lore_applier::apply_fold_lore_before/after (None lore); StateInserter
 //@ stubs: std::hash::RandomState::new -> fixed keys (position maps and resolved lore maps stay empty); alloc::fmt::format -> empty String
+//@ assumes: (any-order harnesses) fold events follow the executors' protocol: per generation forward moves, then back moves, then the generation end; orders with a forward move after a back move are excluded (argued unreachable, see harness comment)
 //@ assumes: no fold state in previous/current data (fresh fold: resolved lore empty), empty input traces; the number of entries emitted before the fold (0..=1) and by each part of each iteration (0..=2) is symbolic; value positions are any u32; entries are emitted by replacing the result trace with a fixed-capacity placeholder trace + set_len
+//@ decides: C04/C09: at the start of an iteration both sliders are placed on the iteration's BEFORE subtrace of their own data, at the start of the back traversal on its AFTER subtrace (previous and current data independently); an absent lore gives an empty interval
+//@ decides: C01: no order of fold events (as an arbitrary script can produce them, e.g. next of an outer fold inside an inner one) makes the fold FSM panic
 //@ decides: C10: for the call orders of one generation with two iterations (full traversal) and with an early exit after the first iteration body, the fold state written at the end holds one lore entry per iteration whose before/after intervals start where the corresponding part started, have exactly the emitted lengths, are pairwise disjoint, ordered (before1, before2, after2, after1) and together cover exactly the entries emitted after the fold state; value_pos is the value supplied
 //@ outside: folds merged with previous/current fold states (resolved lore, slider repositioning by lore), more than 2 iterations per generation, several generations, nested folds
 //@ harness: name=c10_fold_lore_two_iterations props=C10,C08 cap=1800 cost=200 sym="entries emitted: before the fold 0..=1; before-next and after-next part of each of 2 iterations 0..=2 each; value positions any u32" bound="1 generation, 2 iterations, result trace <= 10 entries"
 //@ harness: name=c10_fold_lore_early_exit props=C10 cap=1200 cost=100 sym="entries emitted before the fold 0..=1 and by the first iteration body 0..=2; value position any u32" bound="1 generation, 1 iteration left early (next never reached)"
+//@ harness: name=c04_fold_lore_applier_positions props=C04,C09 cap=1200 cost=100 sym="before/after subtrace (begin, len) of the previous-data and of the current-data lore of one iteration: any u32 that fit a 6-entry trace; lore present / absent per side" bound="6-entry placeholder traces"
+//@ harness: name=c01_fold_fsm_any_call_order props=C01 panicfree=1 cap=1800 cost=300 sym="2 fold events chosen symbolically: next-forward (iteration end + start at any value position), next-back (iteration end + back iterator), generation end; a failing event ends the run" bound="fresh fold without a started iteration, 2 events"
+//@ harness: name=c01_fold_fsm_any_order_after_start props=C01 panicfree=1 cap=2400 cost=400 sym="one iteration start, then 3 events chosen symbolically among next-forward, next-back, generation end" bound="fresh fold, 1 + 3 events"
 //@ harness: name=c10_fold_fsm_vacuity props=C10 expect=fail cap=1800 cost=200 sym="as two_iterations" bound="same"
 
 use super::*;
@@ -164,4 +170,134 @@ fn c10_fold_lore_early_exit() {
     kani::cover!(a1 == 2 && before == 1, "non-trivial sizes");
     std::mem::forget(r1);
     std::mem::forget(dk);
+}
+
+fn any_desc() -> air_interpreter_data::SubTraceDesc {
+    let (b, l): (u32, u32) = (kani::any(), kani::any());
+    kani::assume(b <= 6 && l <= 6 && b + l <= 6);
+    air_interpreter_data::SubTraceDesc { begin_pos: b.into(), subtrace_len: l }
+}
+
+fn any_lore() -> Option<ResolvedSubTraceDescs> {
+    if kani::any() {
+        Some(ResolvedSubTraceDescs::new(any_desc(), any_desc()))
+    } else {
+        None
+    }
+}
+
+fn slider_at(s: &crate::data_keeper::TraceSlider, d: &air_interpreter_data::SubTraceDesc) -> bool {
+    s.subtrace_len() == d.subtrace_len && (d.subtrace_len == 0 || usize::from(s.position()) == usize::from(d.begin_pos))
+}
+
+#[kani::proof]
+#[kani::unwind(8)]
+#[kani::stub(std::hash::RandomState::new, random_state_stub)]
+#[kani::stub(alloc::fmt::format, fmt_stub)]
+fn c04_fold_lore_applier_positions() {
+    let mut dk = DataKeeper::from_trace(placeholder_trace(6).into(), placeholder_trace(6).into());
+    let (prev_lore, cur_lore) = (any_lore(), any_lore());
+    let after: bool = kani::any();
+    let r = if after {
+        apply_fold_lore_after(&mut dk, &prev_lore, &cur_lore)
+    } else {
+        apply_fold_lore_before(&mut dk, &prev_lore, &cur_lore)
+    };
+    kani::assert(r.is_ok(), "C04: a lore that fits the trace is always applied");
+    match &prev_lore {
+        Some(l) => kani::assert(slider_at(dk.prev_slider(), if after { &l.after_subtrace } else { &l.before_subtrace }), "C04/C09: previous slider on the matching subtrace of the previous lore"),
+        None => kani::assert(dk.prev_slider().subtrace_len() == 0, "C09: no lore, empty interval"),
+    }
+    match &cur_lore {
+        Some(l) => kani::assert(slider_at(dk.current_slider(), if after { &l.after_subtrace } else { &l.before_subtrace }), "C04/C09: current slider on the matching subtrace of the current lore"),
+        None => kani::assert(dk.current_slider().subtrace_len() == 0, "C09: no lore, empty interval"),
+    }
+    kani::cover!(after && prev_lore.is_some() && cur_lore.is_some(), "after-subtraces of both data");
+    std::mem::forget((r, prev_lore, cur_lore));
+    std::mem::forget(dk);
+}
+
+/// Fold events as the executors produce them: a stream fold starts an iteration, and every `next`
+/// (wherever the script places it, also inside a nested fold or several times per body) ends the current
+/// iteration part and then either starts the next iteration or turns back; a generation end closes the
+/// round.  Any trace-handler error is uncatchable and ends the run.
+fn any_order_body(start_first: bool, events: u8) {
+    let mut dk = DataKeeper::from_trace(placeholder_trace(0).into(), placeholder_trace(0).into());
+    let r = FoldFSM::from_fold_start(MergerFoldResult::default(), &mut dk);
+    let mut fsm = match r {
+        Ok(f) => f,
+        Err(e) => {
+            std::mem::forget(e);
+            return;
+        }
+    };
+    let mut failed = false;
+    if start_first {
+        let r = fsm.meet_iteration_start(kani::any::<u32>().into(), &mut dk);
+        failed = r.is_err();
+        std::mem::forget(r);
+    }
+    // Within one generation the executors move forward (next with more values) some times and then only
+    // back: a forward move after the back traversal has started would need `iterable.next()` to succeed
+    // after it failed deeper in the recursion; the validator rejects several `next` per stream fold and
+    // re-entering an inner scalar fold fails with "multiple iterable values" before the generation ends
+    // (replay scenario c01_fold_next_orders).  Such orders are excluded here.
+    let mut back_started = false;
+    let mut i = 0;
+    while i < events && !failed {
+        let op: u8 = kani::any();
+        kani::assume(!(op % 3 == 0 && back_started));
+        if op % 3 == 1 {
+            back_started = true;
+        }
+        if op % 3 == 2 {
+            back_started = false;
+        }
+        match op % 3 {
+            0 => {
+                // next, more values: iteration end + iteration start
+                let r1 = fsm.meet_iteration_end(&dk);
+                failed = r1.is_err();
+                std::mem::forget(r1);
+                if !failed {
+                    let r2 = fsm.meet_iteration_start(kani::any::<u32>().into(), &mut dk);
+                    failed = r2.is_err();
+                    std::mem::forget(r2);
+                }
+            }
+            1 => {
+                // next, no more values (or return from the recursion): iteration end + back iterator
+                let r1 = fsm.meet_iteration_end(&dk);
+                failed = r1.is_err();
+                std::mem::forget(r1);
+                if !failed {
+                    let r2 = fsm.meet_back_iterator(&mut dk);
+                    failed = r2.is_err();
+                    std::mem::forget(r2);
+                }
+            }
+            _ => fsm.meet_generation_end(&dk),
+        }
+        i += 1;
+    }
+    kani::cover!(failed, "an out-of-protocol next is reported as an error");
+    kani::cover!(!failed, "end reached without error");
+    std::mem::forget(fsm);
+    std::mem::forget(dk);
+}
+
+#[kani::proof]
+#[kani::unwind(6)]
+#[kani::stub(std::hash::RandomState::new, random_state_stub)]
+#[kani::stub(alloc::fmt::format, fmt_stub)]
+fn c01_fold_fsm_any_call_order() {
+    any_order_body(false, 2);
+}
+
+#[kani::proof]
+#[kani::unwind(6)]
+#[kani::stub(std::hash::RandomState::new, random_state_stub)]
+#[kani::stub(alloc::fmt::format, fmt_stub)]
+fn c01_fold_fsm_any_order_after_start() {
+    any_order_body(true, 3);
 }
